@@ -377,6 +377,25 @@ Section PagerProofs.
     - exfalso. apply nth_error_None in En. rewrite app_length in En. cbn in En. lia.
   Qed.
 
+  (* every call of a listing carries the fields and the options of the request the caller passed *)
+  Lemma calls_keep_original_request (b : bool) (c : call) (p0 : page) (script : list page) o :
+    iterate b c p0 script = Some o ->
+    hd_error (o_calls o) = Some c /\
+    Forall (fun x => c_fields x = c_fields c /\ c_opts x = c_opts c) (o_calls o).
+  Proof.
+    intros H. destruct (pager_behaviour b c p0 script o H) as (i & l & r & _ & _ & _ & Hc & _). rewrite Hc.
+    split; [reflexivity|]. constructor; [auto|]. apply Forall_forall. intros x Hx. apply in_map_iff in Hx.
+    destruct Hx as (p & <- & _). cbn. auto.
+  Qed.
+
+  (* the caller's request is not an output of iteration: after draining a pager the caller holds what it passed, so a
+     second listing made with it starts again from the caller's own page_token and fields *)
+  Lemma caller_request_unchanged (b : bool) (r : call) (p0 : page) (script : list page) (q0 : page) (script2 : list page) o2 :
+    snd (list_and_drain b r p0 script) = r /\
+    (fst (list_and_drain b (snd (list_and_drain b r p0 script)) q0 script2) = Some o2 ->
+     hd_error (o_calls o2) = Some r /\ Forall (fun x => c_fields x = c_fields r /\ c_opts x = c_opts r) (o_calls o2)).
+  Proof. split; [reflexivity|]. cbn. apply calls_keep_original_request. Qed.
+
   (* while iterating, attribute lookup always reaches the page that was yielded last *)
   Lemma attrs_at_each_yield (st : pstate) script sts :
     run st script = Some sts -> map pager_attrs sts = yielded_pages sts.
